@@ -6,5 +6,4 @@ CONSTANTS
   VOrder <- NetVOrder
 CONSTRAINT Mark
 VIEW TView
-INVARIANT MembershipConvergence
 POSTCONDITION Finish
